@@ -141,6 +141,60 @@ def st_process(spec):
             bad("C15.element-hashes-distinct", f"{key}: hash collision among {len(pruned)} element instances")
         elems[key] = sorted(pruned, key=lambda x: x.name)
         events.append(["elements", key, len(pn), core.digest(pn)])
+    # ---- every abstract class of the element hierarchy as an entry point, the root included: the enumeration from a class is
+    #      the disjoint union of the enumerations from the concrete classes below it (each value exactly once), however many
+    #      abstract levels lie in between. Families too large to list here are read lazily: a prefix must be duplicate-free and
+    #      consist of valid instances of the concrete classes below.
+    from maze_dataset.tokenization import _TokenizerElement as _Root
+    from maze_dataset.utils import is_abstract
+
+    def _leaves(c, seen):
+        out = []
+        for sub in c.__subclasses__():
+            if sub in seen:
+                continue
+            seen.add(sub)
+            if not is_abstract(sub):
+                out.append(sub)
+            out.extend(_leaves(sub, seen))
+        return out
+
+    def _abstract_below(c, seen):
+        out = []
+        for sub in c.__subclasses__():
+            if sub in seen:
+                continue
+            seen.add(sub)
+            if is_abstract(sub):
+                out.append(sub)
+            out.extend(_abstract_below(sub, seen))
+        return out
+
+    LIMIT = 30000
+    for A in [_Root] + _abstract_below(_Root, set()):
+        lv = _leaves(A, set())
+        prefix = list(itertools.islice(all_instances(A, V), LIMIT + 1))
+        complete = len(prefix) <= LIMIT
+        names = [type(x).__name__ + ":" + x.name for x in prefix]
+        events.append(["entry-point", A.__name__, len(lv), complete, len(prefix) if complete else None, core.digest(sorted(names)) if complete else None])
+        if len(set(names)) != len(names):
+            import collections
+
+            dup = sorted(n for n, k in collections.Counter(names).items() if k > 1)[:2]
+            bad("C15.enumeration-exactly-once", f"enumerating from {A.__name__}: {len(names) - len(set(names))} values appear more than once among the first {len(names)}, e.g. {dup}")
+            continue
+        if any(type(x) not in lv for x in prefix):
+            bad("C15.enumeration-equals-valid-set", f"enumerating from {A.__name__} yields an instance of a class that is not a concrete class below it")
+            continue
+        if complete:
+            want = []
+            for leaf in lv:
+                want.extend(type(x).__name__ + ":" + x.name for x in all_instances(leaf, V))
+            if sorted(want) != sorted(names):
+                bad("C15.enumeration-equals-valid-set", f"enumerating from {A.__name__} yields {len(names)} values, its {len(lv)} concrete classes together yield {len(want)}")
+            stats["probe_abstract_entry_points_complete"] = stats.get("probe_abstract_entry_points_complete", 0) + 1
+        else:
+            stats["probe_abstract_entry_points_prefix"] = stats.get("probe_abstract_entry_points_prefix", 0) + 1
     # ---- custom rule sets: a rule keyed on a class's own abstract base takes precedence over the general element rule for
     #      instances of that class (the documented "first match along the MRO"), nested elements keep theirs; the enumeration
     #      must then be exactly: every instance whose nested elements are valid, whatever its own is_valid() says
